@@ -1,6 +1,8 @@
 package rules
 
 import (
+	"go/token"
+	"go/types"
 	"os"
 	"fmt"
 	"strings"
@@ -741,6 +743,49 @@ func checkNonAmmEntries(P *core.Program, R *core.Report) {
 					good = true
 				}
 			}
+		}
+		// or grown by one append per pool asset: a loop φ [empty slice, append(φ, coin)] whose
+		// loop ranges over PoolAssets and appends on every way round
+		if ph, ok := v.(*ssa.Phi); ok && len(ph.Edges) == 2 {
+			hdr := ph.Block()
+			var app *ssa.Call
+			emptyInit := false
+			for i, e := range ph.Edges {
+				ev := ff.Fwd(e)
+				if hdr.Dominates(hdr.Preds[i]) {
+					if c, ok := ev.(*ssa.Call); ok && core.CalleeName(c.Common()) == "append" && len(c.Common().Args) == 2 && ff.Fwd(c.Common().Args[0]) == ssa.Value(ph) {
+						app = c
+					}
+				} else {
+					switch x := ev.(type) {
+					case *ssa.MakeSlice:
+						if k, ok := x.Len.(*ssa.Const); ok && k.Value != nil && k.Value.ExactString() == "0" {
+							emptyInit = true
+						}
+					case *ssa.Const:
+						emptyInit = x.Value == nil
+					case *ssa.Slice:
+						if al, ok := x.X.(*ssa.Alloc); ok {
+							if pt, ok := al.Type().Underlying().(*types.Pointer); ok {
+								if at, ok := pt.Elem().Underlying().(*types.Array); ok && at.Len() == 0 {
+									emptyInit = true
+								}
+							}
+						}
+					}
+				}
+			}
+			overAssets := false
+			if iff, ok := hdr.Instrs[len(hdr.Instrs)-1].(*ssa.If); ok {
+				if bo, ok := iff.Cond.(*ssa.BinOp); ok && bo.Op == token.LSS {
+					if l, isLen := lenOf(ff, bo.Y); isLen {
+						if _, isPA := fieldLoad(ff, l, "PoolAssets"); isPA {
+							overAssets = true
+						}
+					}
+				}
+			}
+			good = app != nil && emptyInit && overAssets
 		}
 		R.Add(rule, key, "NonAmmPoolTokens stored at creation", P.Pos(P.InstrPos(st)), good,
 			"one entry per pool asset, zero amounts included: a raw slice of len(PoolAssets) filled by index (sdk.Coins constructors drop zero coins)")
